@@ -63,7 +63,9 @@ def gen(c):
         # set_nonce with every length 0..20, set_counter; checked through the next ciphertext
         lens = range(21) if (th or not slow) and not cls.startswith('isap') or th else [0, 1, 8, 15, 16, 17, 20]
         lines = ['cpp.new cls=%s obj=1 how=default' % cls]
-        for L in lens:
+        # in random order, and length 0 once more at the end: the stored nonce is then certainly not zero already
+        order = list(lens); rng.shuffle(order)
+        for L in order + [0, 1]:
             lines += ['cpp.set_nonce obj=1 n=%s null_if_empty=%d' % (hx(pattern(rng, L, 'rand')), rng.randrange(2)), 'cpp.enc obj=1 m=%s ad=- form=ptr' % hx(pattern(rng, 3))]
         for v in [0, 1, 0xffffffffffffffff, rng.getrandbits(64)]:
             lines += ['cpp.set_counter obj=1 ctr=%d' % v, 'cpp.enc obj=1 m=- ad=- form=ba', 'cpp.enc obj=1 m=- ad=- form=ptr']
